@@ -931,13 +931,21 @@ pub fn ppoprf(tier: &str, seed: u64) {
 // ---------------------------------------------------------------------------------------------
 
 pub fn export_import(src: &Server) -> Server {
+  export_import_into(src, None)
+}
+
+/// export `src`, send the state through bincode, import it into `dst` - a server that already has
+/// an identity and a history of its own (key, tags, punctures, earlier imports): everything of it
+/// must be replaced by the imported state
+pub fn export_import_into(src: &Server, dst: Option<Server>) -> Server {
   let bytes = bincode::serialize(&src.get_private_key()).expect("serialize key state");
   let st: ServerKeyState = bincode::deserialize(&bytes).expect("deserialize key state");
-  // the importing instance already has an identity of its own (key, tags): everything of it
-  // must be replaced by the imported state
-  let mut fresh = Server::new(vec![1, 2, 3, 200]).expect("Server::new");
-  fresh.set_private_key(st);
-  fresh
+  let mut importer = match dst {
+    Some(d) => d,
+    None => Server::new(vec![1, 2, 3, 200]).expect("Server::new"),
+  };
+  importer.set_private_key(st);
+  importer
 }
 
 pub fn server(tier: &str, seed: u64) {
@@ -1024,7 +1032,12 @@ pub fn server(tier: &str, seed: u64) {
         stat("server.op.clone");
       } else if op < 94 {
         let (src, dst) = (*g.pick(&live), g.below(NSLOTS as u64) as usize);
-        let c = export_import(slots[src].as_ref().unwrap());
+        // the importer is the server already sitting in the destination slot, when there is one
+        let existing = if dst != src { slots[dst].take() } else { None };
+        if existing.is_some() {
+          stat("server.op.import_into_used_server");
+        }
+        let c = export_import_into(slots[src].as_ref().unwrap(), existing);
         slots[dst] = Some(c);
         toks.push(format!("xi:{}:{}", src, dst));
         ans.push("x".into());
